@@ -40,4 +40,63 @@ PROPS = {
                      "runs on real files in a scratch directory under the system temp dir, removed afterwards"],
         rule="sequences of open / open with invalid options / open of a file with both headers damaged / open with max-size update / waiting open / close on one real path; distinct = sequences",
     ),
+    "C01": dict(
+        lean=["TxVerif.Props.C01", "TxVerif.Tie.Order", "TxVerif.Tie.Layout"],
+        runs=[dict(cmd="crash", n={Q: 96, T: 1600}, driver="crash", timeout={Q: 900, T: 3400})],
+        hypotheses=["the trace follows the commit discipline Cfg.step (checked on every operation log of the implementation by the driver)",
+                    "TornHeaderDetected: a header write cut at some byte leaves a slot that fails Validate (C16: guaranteed for damage confined to one byte; for longer cuts up to a 2^-32 checksum collision)"],
+        partial=["the theorem is about the vfs-level trace; that the real Open reads only the pages in the recorded reach set of the selected header is validated by the crash-image enumeration on the implementation",
+                 "real disks below the vfs interface (sector atomicity, fsync semantics) are assumptions"],
+        assumptions=["page writes are atomic with respect to crashes, un-synced operations may be lost in any subset, a completed sync makes all earlier operations durable",
+                     "SyncNone is excluded"],
+        rule="random histories (alloc/overwrite/free/flush/checkpoint/rollback/commit/reopen, bounded and unbounded files, WAL limits 1..1000, meta area 0..16); at every I/O boundary all subsets of the pending operations (up to 7/10 pending, sampled above) and header tears; distinct = distinct crash images reopened",
+    ),
+    "C02": dict(
+        lean=["TxVerif.Props.C02", "TxVerif.Tie.Order", "TxVerif.Tie.Skeleton"],
+        runs=[
+            dict(cmd="sched", n={Q: 320, T: 8000}, props=["C02", "C09"], timeout={Q: 600, T: 3000}),
+            dict(cmd="lockobj", n={Q: 200, T: 3000}, driver="lock", workers=1),
+            dict(cmd="crash", n={Q: 32, T: 400}, driver="crash", props=["C02"]),
+        ],
+        hypotheses=["the writer never writes into a page the committed version depends on (the write discipline of the isolation model; checked by the crash acceptor on real operation logs)"],
+        partial=["atomicity of the code between two lock operations (Go memory model) is assumed; the thorough tier runs the schedules under the race detector as validation",
+                 "the mmap view is modelled as the current file content (MAP_SHARED)"],
+        assumptions=["readers and the writer run under the controlled scheduler at the trace points of the verif hooks"],
+        rule="controlled schedules of 1-2 writers (writes, Flush, CheckpointWAL, frees, rollback, commit blocked by readers) and 0-6 readers that verify their whole snapshot at begin, at every scheduling point and before close",
+    ),
+    "C03": dict(
+        lean=["TxVerif.Props.C03", "TxVerif.Tie.Order"],
+        runs=[
+            dict(cmd="engine", n={Q: 400, T: 12000}, driver="engine"),
+            dict(cmd="space", n={Q: 64, T: 1500}, driver="engine", props=["C03"]),
+        ],
+        partial=["the sequential refinement over all histories (engine_refines_store) is not yet a theorem: it is established per run by the engine correspondence (Lean engine model = implementation on every result, every id, every content read and every allocator snapshot) plus the map-based specification in the harness",
+                 "writer timing: writer_order is proved for every batching; real batch boundaries are not controlled"],
+        assumptions=["callers do not re-use a byte slice passed to a full-page SetBytes; pages allocated but never written have no defined content"],
+        rule="random programs (full/partial SetBytes, Load+MarkDirty, Flush, manual and automatic checkpoints, re-use of freed pages, rollbacks) with read-back in the transaction, after each transaction and after reopen; distinct = programs hitting >= 3 coverage markers",
+    ),
+    "C05": dict(
+        lean=["TxVerif.Props.C05Layout"],
+        runs=[
+            dict(cmd="pq", n={Q: 240, T: 6000}, props=["C05"]),
+            dict(cmd="pqlayout", n={Q: 300, T: 6000}, driver="pure", workers=1),
+        ],
+        hypotheses=["event sizes >= 1 for the id bookkeeping theorem (layout_roundtrip_ids); the framing theorems hold for all sizes"],
+        partial=["buffer_refines_layout (the pages the writer persists after any sequence of Write chunks / Next / Flush are `layout` of the finished events) is validated by correspondence (pqlayout: real writer with random chunking and flushes in the middle of events vs the model's layout) and not yet a theorem"],
+        assumptions=["queue on the simulated disk; the consumer only ACKs events it has consumed"],
+        rule="pq: random producer/consumer programs (boundary event sizes, chunked writes, flushes mid-event, partial reads, skips, ACKs, reopen, full files); pqlayout: on-disk page chain of the real writer vs model layout",
+    ),
+    "C10": dict(
+        lean=["TxVerif.Props.C10"],
+        runs=[
+            dict(cmd="codec-lists", n={Q: 900, T: 20000}, driver="pure", workers=1),
+            dict(cmd="engine", n={Q: 240, T: 8000}, driver="engine", props=["C10"], args=[]),
+            dict(cmd="resize", n={Q: 64, T: 1500}, driver="engine", props=["C10"]),
+        ],
+        hypotheses=["region ids < 2^55, counts in [1, 2^32), WAL ids < 2^56, page ids < 2^64, page size <= 2^32, at least one page pre-allocated when the lists are non-empty"],
+        partial=["reopen_observational (an instance that was reopened behaves like one that was not) is checked per run: after every reopen the implementation's allocator snapshot equals the model, which does not reopen",
+                 "the number of pages predicted for the free list can under-estimate for adversarial fragmentation (pure-function witness, see DESIGN.md); commits then fail with an error, no corruption"],
+        assumptions=[],
+        rule="codec-lists: region/WAL/free-list codecs on boundary values and random lists; engine/resize: histories with reopen points (fragmented free lists, regions >= 255 pages via large AllocN, mappings over several pages)",
+    ),
 }
